@@ -55,7 +55,8 @@ fn upper_tails(mean: f64, kmax: usize, lnf: &[f64]) -> Vec<f64> {
 /// from the far end. The library's own cumulative sum over millions of terms is accurate to about 1e-9
 /// absolute, hence epsilon in [1e-7, 1e-6] and a 1% band on the tail probability.
 fn huge_mean_case(rng: &mut Rng, rep: &mut CaseReport) {
-    let mean_target = 10f64.powf(6.0 + 0.9 * rng.f64());
+    // (every other one above 2^64^(1/3) = 2.64 million, where the cube of the job count leaves 64 bits)
+    let mean_target = if rng.chance(1, 2) { 10f64.powf(6.45 + 0.45 * rng.f64()) } else { 10f64.powf(6.0 + 0.9 * rng.f64()) };
     let rate = *rng.pick(&[0.25f64, 0.5, 1.0, 2.0]);
     let delta = (mean_target / rate).round() as u64;
     let mean = rate * delta as f64;
@@ -138,7 +139,7 @@ impl Monitor for C15 {
     }
     fn assumptions(&self) -> Vec<String> {
         vec![
-            "epsilon in [1e-13, 0.5] (below 1e-12 only for means <= 6): below about 1e-15 no f64 accumulation of the mass function can reach 1-epsilon".to_string(),
+            "epsilon in [1e-13, 0.99] (below 1e-12 only for means <= 6): below about 1e-15 no f64 accumulation of the mass function can reach 1-epsilon".to_string(),
             "ties at machine precision are accepted in either direction (band 1e-6 relative, 1e-13 absolute on the tail probability)".to_string(),
         ]
     }
@@ -182,7 +183,8 @@ impl Monitor for C15 {
         } else {
             // every fourth random case: a tiny rate, so that the interval length exceeds 2^32
             let rate = if index % 4 == 3 { 10f64.powf(-11.0 + 5.0 * rng.f64()) } else { 10f64.powf(-3.0 + 4.0 * rng.f64()) };
-            let eps = (10f64.powf(-12.0 + 12.0 * rng.f64())).min(0.5);
+            // (one random case in ten: an epsilon above one half, i.e. a quantile below the median)
+            let eps = if index % 10 == 9 { *rng.pick(&[0.6f64, 0.75, 0.9, 0.99]) } else { (10f64.powf(-12.0 + 12.0 * rng.f64())).min(0.5) };
             let mean = if index % 4 == 3 { 10f64.powf(-1.0 + 4.5 * rng.f64()) } else { 10f64.powf(-3.0 + 6.78 * rng.f64()) };
             (rate, eps, ((mean / rate).round() as u64).max(1))
         };
